@@ -713,8 +713,13 @@ def _candidate_protocluster_order(sub, spec, clause, detail) -> bool:
     return (detail.get("where"), detail.get("kind")) in _CANDIDATE_ORDER.get(clause, ())
 
 
-_CANDIDATE_QUALIFIER = re.compile(r"^records\[\]\.features\[\]\.qualifiers\.(candidate_cluster_number|kind|product|"
-                                  r"protoclusters|detection_rules|candidate_cluster_numbers)(\[\])?$")
+_AREA_QUALIFIERS = ("candidate_cluster_number|kind|product|protoclusters|detection_rules|candidate_cluster_numbers|"
+                    "protocluster_number|aStool|category|contig_edge|core_location|cutoff|detection_rule|neighbourhood|"
+                    "tool|rules|region_number|subregion_numbers")
+_CANDIDATE_QUALIFIER = re.compile(r"^records\[\]\.features\[\]\.(type|location|qualifiers|qualifiers\.(" + _AREA_QUALIFIERS
+                                  + r")(\[\])?)$")
+_AREA_FEATURE_LINES = re.compile(r"^(protocluster|proto_core|cand_cluster)\./\w+"
+                                 r"(<>(protocluster|proto_core|cand_cluster)\./\w+)?$")
 
 
 @_sig
@@ -722,7 +727,9 @@ def _equal_location_candidate_order(sub, spec, clause, detail) -> bool:
     """ create_candidates_from_protoclusters appends the single candidates while iterating set(unassigned) and
         then sorts with a comparison that ties on equal locations: the record holds two candidate clusters that
         the comparison does not order AND the same areas are formed AND only the order / numbering of candidate
-        clusters (and its renderings) differs """
+        clusters differs - in the area dumps, and in the writers as the numbering qualifiers and the mutual order
+        of the protocluster / proto_core / cand_cluster features (Record.to_biopython sorts all features with the
+        same comparison, so the order of the candidates decides where the equal-location features end up) """
     if sub not in ("detect", "areas") or "unordered_candidates" not in (detail.get("result_classes") or []):
         return False
     if {"areas_sets", "protoclusters"} & set(detail.get("upstream") or []):
@@ -731,7 +738,7 @@ def _equal_location_candidate_order(sub, spec, clause, detail) -> bool:
     if clause == "areas_differs":
         return where.startswith("candidates[].") or where == "regions[].candidates"
     if clause in ("genbank_differs", "region_genbank_differs"):
-        return where.startswith("cand_cluster./") or where == "region./candidate_cluster_numbers"
+        return bool(_AREA_FEATURE_LINES.match(where)) or where == "region./candidate_cluster_numbers"
     if clause == "results_json_differs":
         return bool(_CANDIDATE_QUALIFIER.match(where)) or where.startswith("records[].areas[].candidates[]")
     return False
